@@ -41,7 +41,10 @@ def run(tier, seed, work, replay):
     known = E.load_known()
 
     def execute(cp, tag):
-        epath, _ = E.run_harness(binary, PROP, work, cases=cp, events=work.path("events-%s.ndjson" % tag), timeout=2400)
+        # the confirming run uses ONE processor: whatever depends on which processor a goroutine happens to run on (per-P
+        # caches such as sync.Pool) then repeats itself; the interleavings are the scheduler's, not the runtime's
+        epath, _ = E.run_harness(binary, PROP, work, cases=cp, events=work.path("events-%s.ndjson" % tag), timeout=2400,
+                                 env={"GOMAXPROCS": "1"} if tag == "confirm" else None)
         evs = E.read_ndjson(epath)
         return evs, E.monitor_chunked(work, "Trace_KMConc", "Trace_KMConc.cfg", epath, cov, chunk=600, par=8, timeout=1200)
     # free-running concurrent mix under the race detector: reports with a keymaster frame are G_C16_NoRace failures
